@@ -56,18 +56,21 @@ Definition lookupS (h : list cdef) (c : nat) (n : string) : option mref :=
 
 (* members reachable through the class value itself *)
 Definition static_lookupS (h : list cdef) (c : nat) (n : string) : option mref :=
-  match own h c n with
-  | Some (true, m) => Some m
-  | Some (false, _) => None
-  | None => lookupS h 0 n
-  end.
+  if Nat.eqb c 0 then lookupS h 0 n        (* Object's own class, Type, is a subclass of Object *)
+  else match nth_error h c with
+       | None => None
+       | Some d => match own_lookup (d_defs d) n with
+                   | Some (true, m) => Some m
+                   | Some (false, _) => None
+                   | None => lookupS h 0 n
+                   end
+       end.
 
 Definition findS (h : list cdef) (r : cref) (n : string) : option mref :=
   match r with
   | CUser c => lookupS h c n
   | CMeta c => static_lookupS h c n
-  | CBuiltin _ => lookupS h 0 n
-  | CBaseMeta => None
+  | CBuiltin _ | CBaseMeta => lookupS h 0 n
   end.
 
 (* `super.n` written in the body of class `owner` *)
@@ -80,8 +83,8 @@ Definition superS (h : list cdef) (owner : nat) (n : string) : option mref :=
 Definition derivesS (h : list cdef) (r : cref) (q : nat) : bool :=
   match r with
   | CUser c => existsb (Nat.eqb q) (ancestry h c)
-  | CMeta _ | CBuiltin _ => Nat.eqb q 0
-  | CBaseMeta => false
+  | CMeta c => Nat.ltb c (List.length h) && Nat.eqb q 0
+  | CBuiltin _ | CBaseMeta => Nat.eqb q 0
   end.
 
 (* declared ancestor relation (reflexive, transitive) *)
@@ -96,18 +99,18 @@ Definition wf_hist (h : list cdef) : Prop :=
 
 (* ----- member access on a value ----- *)
 Definition spec_get (h : list cdef) (heap : list inst) (recv : value) (n : string) : res value :=
-  let fld := match recv with
-             | VInst a => match nth_error heap a with Some i => fld_get n (fields i) | None => None end
-             | _ => None
-             end in
-  match fld with
-  | Some v => Ok v
-  | None =>
+  let via_class :=
     match findS h (class_of heap recv) n with
     | Some (MClosure f) => Ok (VBound recv f)
     | Some (MNative k) => Ok (VBoundNative recv k)
     | None => Err AttributeError (undefined_property n)
-    end
+    end in
+  match recv with
+  | VInst a => match nth_error heap a with
+               | Some i => match fld_get n (fields i) with Some v => Ok v | None => via_class end
+               | None => Stuck "dangling instance"
+               end
+  | _ => via_class
   end.
 
 (* x.n(args) is (x.n)(args) *)
